@@ -88,8 +88,8 @@ def check_wf(m):
     producers = {}
     available = set(int(x) for x in g.inputs)
     for ti, t in enumerate(g.tensors):
-      if is_const(m, t):
-        available.add(ti)
+      if is_const(m, t) or getattr(t, 'isVariable', False):
+        available.add(ti)          # constants and variable (state) tensors need no producer
     for oi, o in enumerate(g.operators):
       if not 0 <= o.opcodeIndex < len(m.operatorCodes):
         bad.append(('C01:opcode-index', f'sg{gi} op{oi}'))
